@@ -337,7 +337,42 @@ fn judge_post(p: &Post, line: &str) -> J {
                 return J::Viol("assertion/no-equal-sign".into(), format!("posting line {:?}: `=` expected after the account", line));
             }
             if b.kind != Kind::Plain {
-                return J::DontCare(format!("assertion-only/expression/{}", b.kind.name()));
+                // "where it would be after an amount in that commodity": after an amount written as this very expression
+                // the aligned number ends in column 52, the rest of the expression follows, then a blank and `=`.
+                let e = t[1..].trim_start();
+                let (nstart, nend) = match b.kind {
+                    Kind::ParenFirst if e.starts_with('(') => (1, 1 + numeric_run(&e[1..])),
+                    Kind::ParenSecond if e.starts_with('(') => {
+                        let n1 = numeric_run(&e[1..]);
+                        let p2 = 1 + n1;
+                        if n1 == 0 || !e[p2..].starts_with(" * ") {
+                            return J::DontCare(format!("assertion-only/expression-shape-not-recognised/{}", b.kind.name()));
+                        }
+                        (p2 + 3, p2 + 3 + numeric_run(&e[p2 + 3..]))
+                    }
+                    _ => return J::DontCare(format!("assertion-only/expression-shape-not-recognised/{}", b.kind.name())),
+                };
+                if nend == nstart {
+                    return J::DontCare(format!("assertion-only/expression-shape-not-recognised/{}", b.kind.name()));
+                }
+                let trail_w = match width(&e[nend..]) {
+                    Some(w) => w,
+                    None => return J::Viol("output/char-outside-alphabet".into(), format!("posting line {:?}", line)),
+                };
+                let exp_e = 54 + trail_w;
+                let eq_col = left_w + gap + 1;
+                return if left_w + 2 < exp_e {
+                    if eq_col != exp_e {
+                        J::Viol(
+                            format!("assertion-column/expression/{}/{}/{}", b.kind.name(), shape, markc),
+                            format!("posting line {:?}: `=` is in display column {}, but after the amount {:?} (number ending in column 52) it would be in column {}", line, eq_col, e, exp_e),
+                        )
+                    } else {
+                        J::Pass(format!("eq-aligned/expression/{}/{}", b.kind.name(), shape))
+                    }
+                } else {
+                    J::Pass(format!("eq-overflow/expression/gap{}/{}", if gap == 2 { "=2" } else { ">2" }, shape))
+                };
             }
             let eq_col = left_w + gap + 1;
             if room {
